@@ -1,5 +1,5 @@
 /-
-  Model of pgdump/remote.go (RemoteClient) — the tree after fixes/cluster/01..06:
+  Model of pgdump/remote.go (RemoteClient) — the tree after fixes/cluster/01..06 and 09 (Query reads through readTableRows):
     01 Tables() returns the relations in filenode order (was: map iteration order)
     02 DumpDatabase keeps only ordinary tables (relkind 'r'; was: every relkind)
     03 Table()/Database(): exact name first, then the first case-insensitive match in filenode / heap order
@@ -137,7 +137,7 @@ def queryWith (rr : RowReader) (fs : RemoteReader) (dbOID : Nat) (table : Option
       | none => pure []
       | some data => do
         let mcols : List Column := attrs.map fun a => ⟨a.name, a.typid, a.len, a.num, a.align⟩
-        let rows ← rr data mcols true
+        let rows ← readTableRows rr data mcols
         let rows := match opts with
           | some o => if o.columns.length > 0 then rows.map (projectRow o.columns) else rows
           | none => rows
